@@ -334,6 +334,17 @@ pub fn positions(sh: &Shape, b_indices: &[usize], all_lanes: bool) -> Vec<Pos> {
     out
 }
 
+/// Obligation-id label of a position; cap entries are named by role ("the entry the query lands
+/// in"), not by index, so that the native replay (whose query indices come from the honest
+/// transcript) finds the same obligation.
+fn pos_label(p: &Pos) -> String {
+    match p {
+        Pos::CommitCap(s, _, lane) => format!("CommitCap({s},hit,{lane})"),
+        Pos::InitCap(o, _, lane) => format!("InitCap({o},hit,{lane})"),
+        other => format!("{other:?}").replace(' ', ""),
+    }
+}
+
 fn run_verifier<F: VF>(b: &Bundle<F>) -> A {
     let (ok, atoms) = F::accept(|| {
         verify_fri_proof::<F, F::Cfg, 2>(&b.instance, &b.openings, &b.challenges, &b.caps, &b.proof, &b.params)
@@ -408,13 +419,69 @@ fn shape_obs<F: VF>(ctx: &mut Ctx, idp: &str, sh: &Shape, all_lanes: bool) {
             .sample("verify_fri_proof reaches Ok on the path where every ensure! comparison holds (shape is valid, no index panic)")
             .goal(A::Bool(matches!(acc0, A::Accept(true, _)))),
     );
+    // shape: every single-vector length change of the FRI proof is rejected (concrete structure)
+    {
+        type P<F> = FriProof<F, H, 2>;
+        let mut muts: Vec<(&str, Box<dyn Fn(&mut P<F>, bool) -> bool>)> = vec![];
+        macro_rules! vm {
+            ($name:expr, $guard:expr, $($path:tt)+) => {
+                muts.push(($name, Box::new(|p: &mut P<F>, grow: bool| {
+                    #[allow(clippy::redundant_closure_call)]
+                    if !($guard)(p) { return false; }
+                    let v = &mut p.$($path)+;
+                    if grow { match v.last().cloned() { Some(x) => v.push(x), None => return false } } else if v.pop().is_none() { return false; }
+                    true
+                })));
+            };
+        }
+        vm!("query_round_proofs", |_p: &P<F>| true, query_round_proofs);
+        vm!("commit_phase_merkle_caps", |_p: &P<F>| true, commit_phase_merkle_caps);
+        vm!("commit_phase_merkle_caps[0]", |p: &P<F>| !p.commit_phase_merkle_caps.is_empty(), commit_phase_merkle_caps[0].0);
+        vm!("final_poly", |_p: &P<F>| true, final_poly.coeffs);
+        vm!("query[0].initial.evals_proofs", |_p: &P<F>| true, query_round_proofs[0].initial_trees_proof.evals_proofs);
+        vm!("query[0].initial.evals[0]", |_p: &P<F>| true, query_round_proofs[0].initial_trees_proof.evals_proofs[0].0);
+        vm!("query[0].initial.siblings[0]", |_p: &P<F>| true, query_round_proofs[0].initial_trees_proof.evals_proofs[0].1.siblings);
+        vm!("query[0].steps", |_p: &P<F>| true, query_round_proofs[0].steps);
+        vm!("query[0].steps[0].evals", |p: &P<F>| !p.query_round_proofs[0].steps.is_empty(), query_round_proofs[0].steps[0].evals);
+        vm!("query[0].steps[0].siblings", |p: &P<F>| !p.query_round_proofs[0].steps.is_empty(), query_round_proofs[0].steps[0].merkle_proof.siblings);
+        let mut goals = vec![];
+        let mut not_rejected: Vec<String> = vec![];
+        let mut n = 0;
+        for (name, f) in &muts {
+            for grow in [false, true] {
+                let mut b2 = base.clone();
+                if !f(&mut b2.proof, grow) {
+                    continue;
+                }
+                n += 1;
+                let rejected = !matches!(run_verifier::<F>(&b2), A::Accept(true, _));
+                if !rejected {
+                    not_rejected.push(format!("{name}:{}", if grow { "duplicate-last" } else { "remove-last" }));
+                }
+                goals.push(A::Bool(rejected));
+            }
+        }
+        ctx.add(
+            Ob::new(format!("{idp}.shape"), FILES, format!("{bounds}; {n} single-vector length changes (remove last / duplicate last)"))
+                .sample(format!("verify_fri_proof rejects the proof after each single length change (challenges held fixed); not rejected: {not_rejected:?}"))
+                .goals(goals)
+                .key("fri-verifier:accepts-wrong-length"),
+        );
+    }
     let delta = F::var("delta");
     let idxs = if F::SYMBOLIC { sh.query_indices.clone() } else { base.challenges.fri_query_indices.clone() };
+    let mut seen: std::collections::HashMap<String, usize> = std::collections::HashMap::new();
     for pos in positions(sh, &idxs, all_lanes) {
         let b2 = perturb::<F>(&base, &pos, delta);
         let acc1 = run_verifier::<F>(&b2);
+        let mut label = pos_label(&pos);
+        let k = seen.entry(label.clone()).or_insert(0);
+        *k += 1;
+        if *k > 1 {
+            label = format!("{label}#{k}");
+        }
         ctx.add(
-            Ob::new(format!("{idp}.pin.{:?}", pos).replace(' ', ""), FILES, bounds.clone())
+            Ob::new(format!("{idp}.pin.{label}"), FILES, bounds.clone())
                 .sample(format!("Accept(proof) /\\ Accept(proof[{pos:?} += delta])  ==>  delta == 0"))
                 .assume("FRI challenges held fixed (alpha, betas, zeta: seeded constants); proof-of-work bits = 0")
                 .hyp(acc0.clone())
